@@ -38,8 +38,8 @@ STUB = ["choice of the running thread (baton scheduler)", "uuid source", "wall c
 ASSUMPTIONS = ["code outside the traced files is atomic between two pre-emption points",
                "request loss/duplication not injected: no property promises idempotent retry",
                "sampling over schedules, not proof; the single-pre-emption sweep is complete only for the sampled request pairs"]
-FAULT_KINDS = ["preemption", "client_disconnect", "step_exception", "invalid_request"]
-PROBES = ["exception_inside_a_step", "time_passes_while_stream_held", "held_stream", "late_close_of_finished_stream", "session_restarted_during_choreography", "stepping_without_session", "invalid_request_sent", "disconnect_mid_stream", "exception_mid_request",
+FAULT_KINDS = ["preemption", "client_disconnect", "step_exception", "invalid_request", "state_store_error"]
+PROBES = ["save_failed_during_stepping_request", "exception_inside_a_step", "time_passes_while_stream_held", "held_stream", "late_close_of_finished_stream", "session_restarted_during_choreography", "stepping_without_session", "invalid_request_sent", "disconnect_mid_stream", "exception_mid_request",
           "refused_while_locked", "stream_completed", "preempted_inside_run_step"]
 EXHAUSTIVE = {"quick": False, "thorough": False}
 
@@ -239,6 +239,12 @@ def generate(spec):
     if spec["mode"] == "choreo":
         c = base_case([], {"kind": "default"}, pre=rng.choice([0, 1]), stop=float(rng.choice([8, 12, 16])), adapter=rng.choice([None, None, "plain"]))
         c["choreo"] = gen_choreo(rng)
+        if c["config"].get("adapter") and rng.random() < 0.5:
+            # the state store fails while a stepping request externalises its state (disk full, store down): the request
+            # ends by error, and the lock is released all the same
+            idx = [i for i, a in enumerate(c["choreo"]) if a["a"] == "req" and a["kind"] in ("run_step", "run_steps", "stream_full")]
+            if idx:
+                c["choreo"][rng.choice(idx)]["save_fault"] = rng.choice(["eio_on_open", "eio_on_write"])
         return c
     clients = [client_of(k, rng) for k in spec["kinds"]]
     pre = rng.choice([0, 1, 2])
@@ -426,15 +432,26 @@ def execute_choreo(case):
                         w.get("/%s/session-results" % inst)
                     elif kind == "keep_alive":
                         w.post("/%s/keep-alive" % inst)
-                    elif kind == "run_step":
-                        rr = w.post("/%s/run-step" % inst, {"settings": {}}, tag="q%d" % n)
-                        judge(n, "run-step", rr.status, rr.body, prog)
-                    elif kind == "run_steps":
-                        rr = w.post("/%s/run-steps" % inst, {"settings": {}, "numberSteps": a.get("n", 2)}, tag="q%d" % n)
-                        judge(n, "run-steps", rr.status, rr.body, prog)
-                    elif kind == "stream_full":
-                        rr, _, parts = w.stream("/%s/stream-steps" % inst, {"settings": {}}, tag="q%d" % n)
-                        judge(n, "stream-steps", rr.status, rr.body if rr.body is not None else {}, prog)
+                    elif kind in ("run_step", "run_steps", "stream_full"):
+                        sf = a.get("save_fault") if (cfg.get("adapter") and not prog and has_session[0]) else None
+                        if sf:
+                            w.fs.armed = {"kind": sf}
+                        if kind == "run_step":
+                            rr = w.post("/%s/run-step" % inst, {"settings": {}}, tag="q%d" % n)
+                        elif kind == "run_steps":
+                            rr = w.post("/%s/run-steps" % inst, {"settings": {}, "numberSteps": a.get("n", 2)}, tag="q%d" % n)
+                        else:
+                            rr, _, parts = w.stream("/%s/stream-steps" % inst, {"settings": {}}, tag="q%d" % n)
+                        fired = sf and w.fs.armed is None
+                        w.fs.armed = None
+                        if fired:
+                            # the request itself may fail (its state could not be stored); what is judged is what comes after it
+                            res.fault("state_store_error")
+                            res.probe("save_failed_during_stepping_request")
+                            resets += 1     # (its steps may or may not have been handed out: no contiguity verdict for this run)
+                        else:
+                            judge(n, {"run_step": "run-step", "run_steps": "run-steps", "stream_full": "stream-steps"}[kind], rr.status,
+                                  rr.body if rr.body is not None else {}, prog)
                 if res.violations:
                     break
             # the steps of one held stream are contiguous among all steps unless the session was restarted in between
